@@ -51,8 +51,8 @@ SetStep(f, t) == SetText(f, t) /\ Step([a |-> "Set", f |-> f, t |-> t])
 SetEqualText == \E f \in Files, t \in Texts : SetPath(d, f, t) = "equal-text" /\ SetStep(f, t)
 SetExistingInput == \E f \in Files, t \in Texts : SetPath(d, f, t) = "existing-input" /\ SetStep(f, t)
 SetNewInput == \E f \in Files, t \in Texts : SetPath(d, f, t) = "new-input" /\ SetStep(f, t)
-RemovePresent == \E f \in Files : d.sources[f] # NoText /\ Remove(f) /\ Step([a |-> "Remove", f |-> f])
-RemoveAbsent == \E f \in Files : d.sources[f] = NoText /\ Remove(f) /\ Step([a |-> "Remove", f |-> f])
+RemovePresent == \E f \in Files : d.sources[f] # NoText /\ RemoveText(f) /\ Step([a |-> "Remove", f |-> f])
+RemoveAbsent == \E f \in Files : d.sources[f] = NoText /\ RemoveText(f) /\ Step([a |-> "Remove", f |-> f])
 DoQuery == \E f \in Files, k \in QKinds : Query(k, f) /\ Step([a |-> "Query", kind |-> k, f |-> f])
 Next == SetEqualText \/ SetExistingInput \/ SetNewInput \/ RemovePresent \/ RemoveAbsent \/ DoQuery
 Spec == Init /\ [][Next]_mvars
